@@ -1041,7 +1041,9 @@ func main() {
 	// directory (tmpfs /dev/shm vs /tmp): entries must be complete-or-absent wherever the root lives
 	if d, err := os.MkdirTemp("/dev/shm", "verif-c14-"); err == nil {
 		var a, b syscall.Stat_t
-		if syscall.Stat(d, &a) == nil && syscall.Stat(os.TempDir(), &b) == nil && a.Dev != b.Dev {
+		var fsst syscall.Statfs_t
+		roomy := syscall.Statfs(d, &fsst) == nil && uint64(fsst.Bavail)*uint64(fsst.Bsize) >= 1<<30 // (a small tmpfs would only add ENOSPC noise)
+		if roomy && syscall.Stat(d, &a) == nil && syscall.Stat(os.TempDir(), &b) == nil && a.Dev != b.Dev {
 			altFS = d
 			r.OnExit(func() { os.RemoveAll(d) })
 		} else {
